@@ -97,15 +97,17 @@ Definition cfm_eqb (a b : cfm) : bool :=
 Definition cfget (cf : list cfm) (i : nat) : cfm := nth i cf CU.
 Definition ng (l : list nat) (i : nat) : nat := nth i l 0%nat.
 
-(* connect(): a_min = min(0, off-diagonal values); rows with |a_min| < eps become 'F'
-   and their S.val cells are NOT written: they keep the content of new char[nnz]
-   -> [junk] (per row, true = non-zero char). *)
+(* connect(): a_min = min(0, off-diagonal values); rows with |a_min| < eps become 'F' and
+   (since /repo commit 8cfa879) all their S.val cells are written with false.  Before that
+   fix the cells kept the content of `new char[nnz]`; the [junk] input (per row, true =
+   non-zero char) is kept in the signature so that "for every heap content" stays a
+   statement about the model: it is no longer read (rs_*_junk_independent). *)
 Definition rs_amin (i : nat) (r : row) : S :=
   fold_left (fun m e => if Nat.eqb (fst e) i then m else smin m (snd e)) r s0.
 
 Definition rs_connect_row (eps eps_strong : S) (jrow : list bool) (i : nat) (r : row) : list bool * cfm :=
   let am := rs_amin i r in
-  if sltb (sabs am) eps then (map (fun k => nth k jrow false) (seq 0 (length r)), CF)
+  if sltb (sabs am) eps then (map (fun _ => false) r, CF)
   else let am' := am * eps_strong in
        (map (fun e => negb (Nat.eqb (fst e) i) && sltb (snd e) am') r, CU).
 
@@ -334,7 +336,10 @@ Definition sa_formula (omega : S) (A : crs) (st : flags) (Pt : crs) (i j : nat) 
 (* rows the formula speaks about: non-zero filtered diagonal, exactly one stored diagonal entry *)
 Definition diag_count (i : nat) (r : row) : nat := length (filter (fun e => Nat.eqb (fst e) i) r).
 Definition sa_row_regular (A : crs) (st : flags) (i : nat) : bool :=
-  negb (is_zero (sa_D A st i)) && Nat.eqb (diag_count i (nth i (rows A) [])) 1.
+  let zr := zip_row (nth i (rows A) []) (nth i st []) in
+  negb (is_zero (sa_D A st i)) &&
+  Nat.eqb (length (filter (fun e => Nat.eqb (fst (fst e)) i) zr)) 1 &&
+  Nat.eqb (length zr) (length (nth i (rows A) [])).
 Definition sa_formula_ok (omega : S) (A : crs) (st : flags) (Pt P : crs) : bool :=
   forallb (fun i => negb (sa_row_regular A st i) ||
                     forallb (fun j => seqb (mget P i j) (sa_formula omega A st Pt i j)) (seq 0 (ncols Pt)))
